@@ -32,7 +32,13 @@ def run_case(case):
                               lambda rec=rec: rec.__setitem__("done", rec["done"] + 1))
                 stages[sid] = rec
             elif op[0] == "act" or op[0] == "react":
-                p.__enter__()
+                how = op[1] if len(op) > 1 else "enter"
+                if how == "activate":
+                    p.activate()                 # the global-probe way of (re-)activating
+                elif how == "derived":
+                    p["a"].activate()            # ... through a derived stream
+                else:
+                    p.__enter__()
             elif op[0] == "deact":
                 if op[1] == "exc":
                     try:
